@@ -246,6 +246,46 @@ pub fn export_tables(tcx: TyCtxt<'_>) -> J {
                                             o.push(("bytes", J::s(hex(bytes))));
                                             o.push(("layout", layout_j(tcx, ty)));
                                         }
+                                    } else if a.provenance().ptrs().len() == 1 {
+                                        // a fat pointer to a table: `&'static [T]` (e.g. gsub::FEATURE_MASKS)
+                                        if let ty::Ref(_, inner, _) = ty.kind() {
+                                            if let ty::Slice(elem) = inner.kind() {
+                                                let base = offset.bytes() as usize;
+                                                let raw = a.inspect_with_uninit_and_ptr_outside_interpreter(base..a.len());
+                                                if let Some((_, prov)) = a.provenance().ptrs().iter().next() {
+                                                    if raw.len() >= 16 {
+                                                        let mut lb = [0u8; 8];
+                                                        lb.copy_from_slice(&raw[8..16]);
+                                                        let n = u64::from_le_bytes(lb) as usize;
+                                                        if let GlobalAlloc::Memory(t) = tcx.global_alloc(prov.alloc_id()) {
+                                                            let ta = t.inner();
+                                                            if ta.provenance().ptrs().is_empty() && ta.len() <= 1 << 16 {
+                                                                let tb = ta.inspect_with_uninit_and_ptr_outside_interpreter(0..ta.len());
+                                                                o.push(("bytes", J::s(hex(tb))));
+                                                                o.push(("slice_len", J::u(n)));
+                                                                o.push(("elem_layout", layout_j(tcx, *elem)));
+                                                            }
+                                                        }
+                                                    }
+                                                }
+                                            }
+                                        }
+                                    }
+                                }
+                            }
+                            // `&'static [T]` tables (e.g. gsub::FEATURE_MASKS): export the bytes of the slice and the element layout
+                            ConstValue::Slice { alloc_id, meta } => {
+                                if let GlobalAlloc::Memory(alloc) = tcx.global_alloc(alloc_id) {
+                                    let a = alloc.inner();
+                                    if a.provenance().ptrs().is_empty() && a.len() <= 1 << 16 {
+                                        let bytes = a.inspect_with_uninit_and_ptr_outside_interpreter(0..a.len());
+                                        o.push(("bytes", J::s(hex(bytes))));
+                                        o.push(("slice_len", J::u(meta as usize)));
+                                        if let ty::Ref(_, inner, _) = ty.kind() {
+                                            if let ty::Slice(elem) = inner.kind() {
+                                                o.push(("elem_layout", layout_j(tcx, *elem)));
+                                            }
+                                        }
                                     }
                                 }
                             }
